@@ -133,13 +133,20 @@ FindUnexp ==
 Blocklisted(i) == Un(i).blockUnit \/ Un(i).bstate \in Rng(sc.blockStates)
 RepExpected    == {i \in data : drep[i]} \ unexp
 
+\* the outlier detection models run only when switched on and with more than 20 reporting expected units
+\* (the margin one only when margin is an estimand)
+\* sc.extraRep: reporting expected units of the same run outside the scenario (the harness' ballast state)
+NRepExpected == Cardinality(RepExpected) + sc.extraRep
+EnabledT == sc.optT /\ NRepExpected > 20
+EnabledM == sc.isMargin /\ sc.optM /\ NRepExpected > 20
+
 \* concat order in _get_non_modeled_units, then drop_duplicates keeps the first
 Reason(i) ==
   CASE Blocklisted(i)                          -> "non-modeled: blocklisted"
     [] Un(i).zeroBase                          -> "non-modeled: zero baseline"
     [] i \in RepExpected /\ Un(i).tfStrange    -> "non-modeled: strange turnout factor"
-    [] i \in RepExpected /\ Un(i).outlierT     -> "non-modeled: strange turnout factor modeled"
-    [] i \in RepExpected /\ Un(i).outlierM     -> "non-modeled: strange margin change modeled"
+    [] i \in RepExpected /\ EnabledT /\ Un(i).outlierT -> "non-modeled: strange turnout factor modeled"
+    [] i \in RepExpected /\ EnabledM /\ Un(i).outlierM -> "non-modeled: strange margin change modeled"
     [] OTHER                                   -> "none"
 
 NonModelled ==
@@ -185,6 +192,8 @@ LevelTable(level) ==
       nrep(g)  == IF g \in DOMAIN gR THEN Cardinality(gR[g]) ELSE 0
       dom      == votesDom \cup DOMAIN gN               \* outer join with the nonreporting sums
       kn(g)    == IF g \in votesDom THEN known(g) ELSE 0
+      Get(t, g) == IF g \in DOMAIN t THEN t[g] ELSE {}
+      Members(g) == Get(gR, g) \cup Get(gN, g) \cup (IF isClass THEN {} ELSE Get(gX, g))
   IN  [ rows |-> SortKeys(dom),
         val  |-> [g \in dom |->
                    [ counted   |-> kn(g) + Fill0(gN, g, RowVotes),
@@ -192,7 +201,11 @@ LevelTable(level) ==
                      pred      |-> kn(g) + Fill0(gN, g, OutPred),
                      lower     |-> [a \in 1..NAlpha |-> kn(g) + Fill0(gN, g, LAMBDA i : OutLower(i, a))],
                      upper     |-> [a \in 1..NAlpha |-> kn(g) + Fill0(gN, g, LAMBDA i : OutUpper(i, a))],
-                     hasN      |-> g \in DOMAIN gN ] ] ]
+                     hasN      |-> g \in DOMAIN gN,
+                     \* bootstrap: predicted two-party turnout and unnormalised margin are sums over the same units
+                     nmemb     |-> Cardinality(Members(g)),
+                     ptsum     |-> SumOver(Members(g), LAMBDA i : Un(i).pt),
+                     pmsum     |-> SumOver(Members(g), LAMBDA i : Un(i).pm) ] ] ]
 
 Aggregate ==
   /\ pc = "aggregate"
@@ -270,14 +283,16 @@ Eligibility ==
         kept == u.inBase /\ (sc.policy = "zero" \/ Matched(i))
         rep  == Matched(i) /\ u.rep
         blk  == Blocklisted(i)
-    IN  /\ (i \in fR <=> (kept /\ rep /\ ~blk /\ ~u.zeroBase /\ ~u.tfStrange /\ ~u.outlierT /\ ~u.outlierM))
+        oT   == EnabledT /\ u.outlierT
+        oM   == EnabledM /\ u.outlierM
+    IN  /\ (i \in fR <=> (kept /\ rep /\ ~blk /\ ~u.zeroBase /\ ~u.tfStrange /\ ~oT /\ ~oM))
         /\ (i \in fN <=> (kept /\ ~rep /\ ~blk /\ ~u.zeroBase))
-        /\ (i \in fX <=> ((u.inFeed /\ ~kept) \/ (kept /\ (blk \/ u.zeroBase \/ (rep /\ (u.tfStrange \/ u.outlierT \/ u.outlierM))))))
+        /\ (i \in fX <=> ((u.inFeed /\ ~kept) \/ (kept /\ (blk \/ u.zeroBase \/ (rep /\ (u.tfStrange \/ oT \/ oM))))))
         /\ (i \in fX /\ kept) =>
              utable[i].cat = (IF blk THEN "non-modeled: blocklisted"
                               ELSE IF u.zeroBase THEN "non-modeled: zero baseline"
                               ELSE IF u.tfStrange THEN "non-modeled: strange turnout factor"
-                              ELSE IF u.outlierT THEN "non-modeled: strange turnout factor modeled"
+                              ELSE IF oT THEN "non-modeled: strange turnout factor modeled"
                               ELSE "non-modeled: strange margin change modeled")
 
 \* C02: the same units in every level; levels agree with each other and with the unit table
